@@ -4,8 +4,9 @@
 
    OBJECTS.  A fixed tree  core > assemblies > blocks > leaves (components); nodes are numbered leaves first,
    then blocks, assemblies, core.  Leaves carry an integer cross-section Area[l] (cm2, hot), blocks an integer
-   Height[b] and a symmetry factor Sym[b] in {1,2,3} (HexBlock.getSymmetryFactor: 3 = centre of a third core, 2 = edge
-   assembly present on both edges, 1 otherwise).  Nuclides {a,b,c,d}; {a,b,d} are isotopes of one element E (d not a natural one); abstract integer
+   Height[b] and a symmetry factor Sym[b] in {1,2,3,4} (HexBlock.getSymmetryFactor: 3 = centre of a third core, 2 = edge
+   assembly present on both edges, 1 otherwise; CartesianBlock.getSymmetryFactor in a quarter core through the centre assembly:
+   4 = centre, 2 = on a symmetry line, 1 = interior, for every axial position).  Nuclides {a,b,c,d}; {a,b,d} are isotopes of one element E (d not a natural one); abstract integer
    atomic weights W[n] (the harness runs the real code with the weights of the three nuclides set to exactly these
    values).  UNITS: masses and mass densities are in units of 1/K gram, K = units.MOLES_PER_CC_TO_ATOMS_PER_BARN_CM
    (model mass = K * grams); atoms in units of 1e24.  These are unit conversions done by the adapter's projection.
@@ -97,11 +98,16 @@ CONSTANTS NLeaf, NBlk, NAsm,
           MaxLevel,
           LSrc,         \* mass-fraction edits start from states whose densities have a common denominator <= LSrc
           LMax, VMax,   \* modelling bound on magnitudes: lcm of all denominators <= LMax, every density <= VMax
+          WithLump,     \* TRUE: the nuclide set contains the lumped fission product e
           LeafVolCut,   \* design switch, see header
           ScaleRaises   \* design switch, see header
 
-Nuc    == {"a", "b", "c", "d"}
-NucSeq == <<"a", "b", "c", "d">>
+\* WithLump adds e, a lumped fission product (a LumpNuclideBase with its own fixed weight) that the object's LFP collection
+\* expands into constituents with yields: c (which is also tracked explicitly) and x (which is not a nuclide of the state)
+Nuc    == IF WithLump THEN {"a", "b", "c", "d", "e"} ELSE {"a", "b", "c", "d"}
+NucSeq == IF WithLump THEN <<"a", "b", "c", "d", "e">> ELSE <<"a", "b", "c", "d">>
+Yield  == [c |-> <<1, 2>>, x |-> <<3, 2>>]        \* LumpedFissionProduct: constituent -> yield per lump atom
+ExpNuc == (Nuc \ {"e"}) \cup {"x"}
 Elem   == {"a", "b", "d"}        \* isotopes of one element; d is not a naturally occurring one (U235, U238, U236)
 Leaf   == 1..NLeaf
 Blk    == (NLeaf + 1)..(NLeaf + NBlk)
@@ -185,7 +191,12 @@ MassFracs(NN, x)  == DT_MassFractions(NDvec(NN, x))                             
 MassesAt(NN, x)   == [n \in Nuc |-> DT_MassInGrams(n, EditVol[x], ND(NN, x, n))]                 \* getMasses()
 Atoms(NN, x, n)   == QMul(ND(NN, x, n), EditVol[x])                                              \* getNumberOfAtoms
 \* nuclide specifiers accepted by getMass: a name, an element symbol, a list of those, None
-Sel == [a |-> {"a"}, b |-> {"b"}, c |-> {"c"}, E |-> Elem, Lac |-> {"a", "c"}, LEc |-> Elem \cup {"c"}, all |-> Nuc]
+\* ... and selections that select nothing: the empty list, a nuclide nobody holds (not even a nuclide of the model), a list of those
+Sel == [a |-> {"a"}, b |-> {"b"}, c |-> {"c"}, E |-> Elem, Lac |-> {"a", "c"}, LEc |-> Elem \cup {"c"}, all |-> Nuc,
+        none |-> {}, absent |-> {}, absentList |-> {}]
+\* getNumberDensities(expandFissionProducts=True): explicit density plus the share held in the lumps, the lumps themselves removed
+ExpND(NN, x, n) == LET base == IF n \in Nuc THEN ND(NN, x, n) ELSE RZero
+                   IN IF WithLump /\ n \in DOMAIN Yield THEN QAdd(base, QMul(Yield[n], ND(NN, x, "e"))) ELSE base
 
 (* ------------------------------------------------- edits ----------------------------------------------- *)
 St == [N |-> N, H |-> H]
@@ -381,6 +392,9 @@ ConversionsInverseC(nd, m) == \A x \in Node :
     IN /\ RIsZero(rho) \/ (back = v /\ DT_MassFractions(back) = mf /\ DT_MassDensity(back) = rho)
        /\ \A n \in Nuc : DT_NumberDensity(n, DT_MassInGrams(n, Vol[x], v[n]), Vol[x]) = v[n]
        /\ \A n \in Nuc, mm \in Masses : DT_MassInGrams(n, Vol[x], DT_NumberDensity(n, mm, Vol[x])) = mm
+\* expanded densities are accounted like the collapsed ones: the volume-weighted mean of the children's (atoms agree over the levels)
+ExpansionAdditive == WithLump => \A x \in Node \ Leaf : \A n \in ExpNuc :
+    QMul(ExpND(N, x, n), CutVol[x]) = QSumSet(KidsTab[x], LAMBDA c : QMul(ExpND(N, c, n), CutVol[c]))
 MassAdditive             == MassAdditiveC(NDT(N), MT(N))
 MassIsDensityTimesVolume == MassIsDensityTimesVolumeC(NDT(N), MT(N))
 AtomsAgree               == AtomsAgreeC(NDT(N), MT(N))
@@ -388,7 +402,7 @@ MassesAgreeWithMass      == MassesAgreeWithMassC(NDT(N), MT(N))
 MassFracsSumToOne        == MassFracsSumToOneC(NDT(N), MT(N))
 ConversionsInverse       == ConversionsInverseC(NDT(N), MT(N))
 Accounting == LET nd == NDT(N)  m == MT(N)         \* all of the above with one evaluation of the tables (quick tier)
-              IN /\ VolumeAdditive /\ MassAdditiveC(nd, m) /\ MassIsDensityTimesVolumeC(nd, m) /\ AtomsAgreeC(nd, m)
+              IN /\ VolumeAdditive /\ ExpansionAdditive /\ MassAdditiveC(nd, m) /\ MassIsDensityTimesVolumeC(nd, m) /\ AtomsAgreeC(nd, m)
                  /\ MassesAgreeWithMassC(nd, m) /\ MassFracsSumToOneC(nd, m) /\ ConversionsInverseC(nd, m)
 
 (* ------------------------------- read-back clauses (properties of steps) -------------------------------- *)
@@ -491,6 +505,8 @@ ObsOf(x, v) ==
         nucs   |-> [i \in 1..Len(NucSeq) |-> NucSeq[i] \in NucsAt(H, x)],
         nd     |-> v,
         mass   |-> [s \in DOMAIN Sel |-> Mass(N, x, Sel[s])],
+        hm     |-> Mass(N, x, Elem \cap NucsAt(H, x)),        \* getHMMass(): getMass(the heavy-metal nuclides here), an empty list where there are none
+        exp    |-> IF WithLump THEN [n \in ExpNuc |-> ExpND(N, x, n)] ELSE [n \in {} |-> RZero],
         masses |-> [n \in Nuc |-> DT_MassInGrams(n, EditVol[x], v[n])],
         atoms  |-> [n \in Nuc |-> QMul(v[n], EditVol[x])],
         dens   |-> IF IsLeaf(x) /\ RIsZero(rho) THEN <<-1, 1>> ELSE rho,         \* -1: Component.density() defers to the material
@@ -499,5 +515,5 @@ ObsOf(x, v) ==
                    IN IF ~IsLeaf(x) \/ RIsZero(rho) \/ RIsZero(e) THEN <<-1, 1>> ELSE QDiv(mf["a"], e)]   \* -1: not compared (0/0, or traces)
 Obs == LET nd == NDT(N) IN [x \in Node |-> ObsOf(x, nd[x])]
 Tree == [parent |-> Parent, area |-> Area, height |-> [b \in Blk |-> Height[b]], hdom |-> HDom, sym |-> [b \in Blk |-> Sym[b]],
-         w |-> W, nleaf |-> NLeaf, nblk |-> NBlk, nasm |-> NAsm, leafVolCut |-> LeafVolCut, scaleRaises |-> ScaleRaises, targets |-> Targets]
+         w |-> W, nleaf |-> NLeaf, nblk |-> NBlk, nasm |-> NAsm, nucs |-> NucSeq, yield |-> Yield, withLump |-> WithLump, leafVolCut |-> LeafVolCut, scaleRaises |-> ScaleRaises, targets |-> Targets]
 ==========================================================================================================
